@@ -180,6 +180,14 @@ jobs:
       - run: echo
   call1:
     needs: [first, second]
+    concurrency:
+      group: c1group
+      cancel-in-progress: true
+    strategy:
+      fail-fast: false
+      max-parallel: 3
+      matrix:
+        w: [1, 2]
     uses: owner/repo/.github/workflows/w.yml@v1
     with:
       win: wv
@@ -192,6 +200,8 @@ jobs:
       contents: read
     concurrency: cgroup
     strategy:
+      fail-fast: true
+      max-parallel: 2
       matrix:
         v: [1]
         include:
